@@ -34,6 +34,18 @@ NoForeignIds == /\ \A p \in AllActs : LET a == E.tours[p[1]].acts[p[2]] IN a.typ
 TourNamesVehicleShift == \A k \in 1..Len(E.tours) : \E v \in 1..Len(E.vehicles) : E.vehicles[v].id = E.tours[k].vehicle /\ E.tours[k].shift \in 1..E.vehicles[v].shifts
 TourServesJob == \A k \in 1..Len(E.tours) : \E i \in 1..Len(E.tours[k].acts) : E.tours[k].acts[i].type \in CustomerTypes
 TourUniqueVehicleShift == \A a, b \in 1..Len(E.tours) : a # b => <<E.tours[a].vehicle, E.tours[a].shift>> # <<E.tours[b].vehicle, E.tours[b].shift>>
+\* "pickups before deliveries": every pickup of a job is met before every delivery of it
+PickupBeforeDelivery == \A k \in 1..Len(E.tours) : LET acts == E.tours[k].acts IN
+  \A p, q \in 1..Len(acts) : (acts[p].job = acts[q].job /\ acts[p].job \in JobIds /\ acts[p].type = "delivery" /\ acts[q].type = "pickup") => q < p
+\* "every break ... stop that appears corresponds to a distinct one defined for that very vehicle shift": no more break / reload /
+\* recharge activities in a tour than its shift defines (records carry the numbers per shift: conditional[shift][kind])
+CondKinds == {"break", "reload", "recharge"}
+ConditionalWithinDefined == \A k \in 1..Len(E.tours) :
+  \A v \in 1..Len(E.vehicles) : (E.vehicles[v].id = E.tours[k].vehicle /\ E.tours[k].shift \in 1..E.vehicles[v].shifts) =>
+     \A kind \in CondKinds :
+        Cardinality({ i \in 1..Len(E.tours[k].acts) : E.tours[k].acts[i].type = kind }) <= E.vehicles[v].conditional[E.tours[k].shift][kind]
+J_PickupBeforeDelivery == Judge("PickupBeforeDelivery", PickupBeforeDelivery)
+J_ConditionalWithinDefined == Judge("ConditionalWithinDefined", ConditionalWithinDefined)
 J_PartitionJobs == Judge("PartitionJobs", PartitionJobs)
 J_NoForeignIds == Judge("NoForeignIds", NoForeignIds)
 J_TourNamesVehicleShift == Judge("TourNamesVehicleShift", TourNamesVehicleShift)
